@@ -8,6 +8,7 @@ import (
 
 	plush "github.com/gobuffalo/plush/v5"
 
+	"verifharness/gen"
 	"verifharness/vrt"
 )
 
@@ -311,4 +312,36 @@ func FalsyShadowsTruthy() {
 	vrt.Assert(err == nil, "the program renders")
 	vrt.Assert(got == want, "a falsy value bound in an inner scope is falsy there, whatever an outer scope binds to the name")
 	vrt.Cover("done")
+}
+
+// ---- if / else-if / else chains enumerated from a grammar; the conditions
+// include calls of a recording helper, so "evaluates no later condition" is
+// checked by comparing the recorded calls with the reference interpreter's
+func init() {
+	vrt.Register("C07_generated_chains", GeneratedChains)
+}
+
+func GeneratedChains() {
+	p := gen.Profile{Unknown: true, Hits: true, Conds: 4 + 3*vrt.Tier()}
+	g := &gen.G{P: p}
+	c := gen.Cx{Inner: "x"}
+	arms := 1 + vrt.Choice(3+vrt.Tier())
+	s := gen.If(true, g.Cond(c), []*gen.Stmt{g.Text()})
+	for i := 1; i < arms; i++ {
+		s.Elifs = append(s.Elifs, gen.Elif{Cond: g.Cond(c), Body: []*gen.Stmt{g.Text()}})
+	}
+	if vrt.Choice(2) == 1 {
+		s.HasElse, s.Else = true, []*gen.Stmt{g.Text()}
+	}
+	prog := []*gen.Stmt{gen.Text("<"), s, gen.Text(">")}
+	switch vrt.Choice(3) {
+	case 1:
+		// the chain inside a loop body
+		prog = []*gen.Stmt{gen.For("", "x", gen.Var("xs"), []*gen.Stmt{s, gen.Text(",")})}
+	case 2:
+		// the chain nested in the first arm of another one
+		outer := gen.IfElse(true, g.Cond(c), []*gen.Stmt{s}, []*gen.Stmt{g.Text()})
+		prog = []*gen.Stmt{gen.Text("<"), outer, gen.Text(">")}
+	}
+	gen.Check(prog, gen.NewData(2).WithHits(8), "if chain from the grammar")
 }
